@@ -365,7 +365,15 @@ impl Wal {
         let segment_path = dir.join(format!("wal.{:06}", segment_num));
 
         let segment = if segment_path.exists() {
-            WalSegment::open(&segment_path, segment_num)?
+            let mut segment = WalSegment::open(&segment_path, segment_num)?;
+            // `WalSegment::open` leaves the file cursor at 0 for readers. Frames are appended at
+            // the cursor, so position it at the end or the first append overwrites frame 0.
+            segment
+                .writer
+                .get_mut()
+                .seek(SeekFrom::End(0))
+                .wrap_err("failed to seek to end of WAL segment")?;
+            segment
         } else {
             WalSegment::create(&segment_path, segment_num)?
         };
@@ -635,18 +643,22 @@ impl Wal {
 
         let mut segment = self.current_segment.lock();
 
-        segment
-            .writer
-            .get_mut()
-            .set_len(0)
-            .wrap_err("failed to truncate WAL segment file")?;
-        #[cfg(kahflane_turdb_verif)]
-        crate::verif_hooks::io_event("wal_truncate", &segment.path.to_string_lossy(), 0, 0);
-
+        // Frames still held by the BufWriter belong to the log being discarded: write them out
+        // first so that they cannot land in the truncated file afterwards.
         segment
             .writer
             .flush()
-            .wrap_err("failed to flush WAL segment after truncate")?;
+            .wrap_err("failed to flush WAL segment before truncate")?;
+
+        let file = segment.writer.get_mut();
+        file.set_len(0)
+            .wrap_err("failed to truncate WAL segment file")?;
+        // set_len does not move the cursor; without the seek the next frame would be written at
+        // the old end of the file, behind a hole of zeros.
+        file.seek(SeekFrom::Start(0))
+            .wrap_err("failed to rewind WAL segment after truncate")?;
+        #[cfg(kahflane_turdb_verif)]
+        crate::verif_hooks::io_event("wal_truncate", &segment.path.to_string_lossy(), 0, 0);
 
         segment.offset = 0;
 
